@@ -76,9 +76,7 @@ func checkDelegation(f *ssa.Function, opt DelegationOpts) (string, *CallInfo) {
 	}
 	for k, p := range params {
 		a := args[k+off]
-		os := Origins(a, FlowOpts{})
-		// look through ReduceAbsPath (not transparent by default)
-		os = expandReducer(os)
+		os := Origins(a, FlowOpts{Transparent: pathTransparent, Interproc: 2})
 		fromP, fromOther := false, ""
 		for _, o := range os {
 			if o.Kind == "param" {
